@@ -227,3 +227,15 @@ REGISTRY.add(Contract(
     canaries=["result == 7.25"], replay="c07:proc_cpu_percent",
     note="100*(CPU seconds used)/(wall seconds elapsed) since that object's previous call; 0.0 on the first call; "
          "negative interval -> ValueError"))
+
+
+# --- /proc/stat decoding: bounded (labelled bounded, never counted as proved) ------------------------------------------------
+from .common import bounded_sweep, LINUX_PY   # noqa: E402
+
+PST = Contract("C07", LINUX_PY, "cpu_times", name="_pslinux.cpu_times / per_cpu_times (generated /proc/stat)", env=BASE_ENV,
+               ensures=["every kernel CPU counter in seconds under its documented name, per CPU in kernel order, for 7-, 8-, "
+                        "9-, 10-column (and wider) /proc/stat layouts"],
+               replay="c07:proc_stat", note="bounded: generated /proc/stat files against an independent decoding")
+BOUNDED_CONTRACTS = [PST]
+BOUNDED = [bounded_sweep(PST, "c07:proc_stat", quick=150, thorough=3000)]
+NOT_COVERED.append("the /proc/stat text decoding (cpu_times, per_cpu_times) is a bounded sweep over generated files, not proved")
